@@ -694,7 +694,20 @@ func (s *Spec) Walk(ctx context.Context, st *State, pendings []interface{}, c *C
 
 		if err != nil {
 			if st.NodeName == s.errorNodeName() {
-				// We're already at an error.
+				// We're already at the error node, so
+				// there is no other node to go to.
+				// Don't drop the failure (or the
+				// messages that are left): stop here and
+				// report both.
+				stride.To = nil
+				walked.add(stride)
+				if stride.Consumed != nil {
+					pendings = pendings[1:]
+				}
+				walked.StoppedBecause = InternalError
+				walked.Error = err
+				walked.Remaining = pendings
+				return walked, nil
 			} else {
 				errorBs, _ := st.Bs.Copy().Extendm("error", err.Error(),
 					"lastNode", st.NodeName,
